@@ -137,6 +137,33 @@ func (p *Prog) memSame1(a, b ssa.Value) bool {
 		}
 		return false
 	}
+	// case 3: b is loaded inside a literal that a helper of the module runs
+	// as a callback (an undo function); a is a load of the same path in the
+	// function creating the literal, before the literal is handed over:
+	// equal if nothing modifies F between a and the hand-over, in the helper,
+	// or in the literal before b
+	if la, fa, ok := loadOfField(a); ok && la.Parent() != fn {
+		if mk := MakeClosureOf(fn); mk != nil && mk.Parent() == la.Parent() && samePath(fa, fb) {
+			if cu := CallbackOf(mk); cu != nil && InstrDominates(la, cu.Site) {
+				outer := la.Parent()
+				cleanIn := func(g *ssa.Function, from, to ssa.Instruction) bool {
+					hit, _ := Search(g, from, nil, func(in ssa.Instruction) bool { return in == to }, func(in ssa.Instruction) bool {
+						return in != to && p.MayModifyField(in, fr)
+					})
+					return hit == nil
+				}
+				okHelper := true
+				Instrs(cu.Callee, func(in ssa.Instruction) {
+					if p.MayModifyField(in, fr) {
+						okHelper = false
+					}
+				})
+				if okHelper && cleanIn(outer, la, cu.Site) && cleanIn(fn, nil, lb) {
+					return true
+				}
+			}
+		}
+	}
 	// case 2: a was stored to the same path before the load
 	refs := a.Referrers()
 	if refs == nil {
